@@ -242,7 +242,7 @@ package node
 // the fallback path of the by-id routes re-enters here
 //@ func (n *node) RouteSendProcessID
 //@   props C02 C03
-//@   modifies pushed, woken
+//@   modifies pushed, woken, anyof(process).messagesIn
 //@   requires [tables] namesWF(n)
 //@   ensures [accepted_one_push_then_wake] result == nil && (to.Node == n.name || to.Node == "") && n.creation > 0 ==> smHas(n.names, any(to.Name)) && (pushed(prioQueue(procByName(n, to.Name), options.Priority)) == old(pushed(prioQueue(procByName(n, to.Name), options.Priority))) + 1 && woken(procByName(n, to.Name)) == old(woken(procByName(n, to.Name))) + 1 || procByName(n, to.Name).fallback.Enable)
 //@   ensures [refused_nothing_pushed] result != nil && (to.Node == n.name || to.Node == "") ==> (forall q lib.QueueMPSC :: pushed(q) == old(pushed(q))) && (forall x *process :: woken(x) == old(woken(x)))
@@ -251,7 +251,7 @@ package node
 //@ ghostheap routed(p gen.PID) int
 //@ func (n *node) RouteSendPID
 //@   props C02 C03
-//@   modifies pushed, woken, routed(to)
+//@   modifies pushed, woken, routed(to), anyof(process).messagesIn
 //@   ensures_ghost routed(to) == old(routed(to)) + 1
 //@   requires [tables] processesWF(n) && namesWF(n) && (forall k any :: smHas(n.processes, k) ==> mailboxWF(smVal(n.processes, k).(*process)))
 //@   ensures [accepted_one_push_then_wake] result == nil && to.Node == n.name && n.creation > 0 ==> smHas(n.processes, any(to)) && (pushed(prioQueue(procOf(n, to), options.Priority)) == old(pushed(prioQueue(procOf(n, to), options.Priority))) + 1 && woken(procOf(n, to)) == old(woken(procOf(n, to))) + 1 || procOf(n, to).fallback.Enable)
@@ -267,6 +267,7 @@ package node
 // requests: no fallback; same truthfulness and queue selection
 //@ func (n *node) RouteCallPID
 //@   props C02 C03 C07
+//@   modifies pushed, woken, anyof(process).messagesIn
 //@   requires [tables] processesWF(n) && (forall k any :: smHas(n.processes, k) ==> mailboxWF(smVal(n.processes, k).(*process)))
 //@   ensures [accepted_one_push_then_wake] result == nil && to.Node == n.name ==> smHas(n.processes, any(to)) && pushed(prioQueue(procOf(n, to), options.Priority)) == old(pushed(prioQueue(procOf(n, to), options.Priority))) + 1 && woken(procOf(n, to)) == old(woken(procOf(n, to))) + 1
 //@   ensures [accepted_only_that_queue] result == nil && to.Node == n.name ==> forall q lib.QueueMPSC :: q != prioQueue(procOf(n, to), options.Priority) ==> pushed(q) == old(pushed(q))
@@ -275,6 +276,7 @@ package node
 
 //@ func (n *node) RouteCallProcessID
 //@   props C02 C03 C07
+//@   modifies pushed, woken, anyof(process).messagesIn
 //@   requires [tables] namesWF(n)
 //@   ensures [accepted_one_push_then_wake] result == nil && to.Node == n.name ==> smHas(n.names, any(to.Name)) && pushed(prioQueue(procByName(n, to.Name), options.Priority)) == old(pushed(prioQueue(procByName(n, to.Name), options.Priority))) + 1 && woken(procByName(n, to.Name)) == old(woken(procByName(n, to.Name))) + 1
 //@   ensures [refused_nothing_pushed] result != nil && to.Node == n.name ==> (forall q lib.QueueMPSC :: pushed(q) == old(pushed(q))) && (forall x *process :: woken(x) == old(woken(x)))
@@ -309,7 +311,7 @@ package node
 //@   props C01 C05 C02
 //@   protocol procState at p
 //@   requires [mailbox] mailboxWF(p)
-//@   modifies woken(p), p.state, owner(p), fin(p)
+//@   modifies woken(p), p.state, owner(p), fin(p), zs(p)
 //@   ensures_ghost woken(p) == old(woken(p)) + 1
 //@   at atomic 1 ghost owner = (result ? child : owner(p))
 
@@ -368,6 +370,7 @@ package node
 // i.e. while this goroutine holds the run token
 //@ func (p *process) run$1$1
 //@   props C01 C05
+//@   no_frame
 //@   protocol procState at p
 //@   requires [holds_token] p != nil && owner(p) == me && fin(p) == 0
 //@   assume [tables] unregWF(p.node, p)
@@ -379,7 +382,8 @@ package node
 //@ func (n *node) Kill
 //@   props C01 C05
 //@   protocol procState at p
-//@   modifies killAsked(pid)
+//@   no_frame
+//@   modifies killAsked(pid), anyof(process).state, owner, fin, zs
 //@   ensures_ghost killAsked(pid) == old(killAsked(pid)) + 1
 //@   requires [tables] processesWF(n)
 //@   assume [tables2] forall k any :: smHas(n.processes, k) ==> unregWF(n, smVal(n.processes, k).(*process))
@@ -401,6 +405,7 @@ package node
 //@ func (p *process) waitResponse
 //@   props C01 C07 C14
 //@   protocol procState at p
+//@   modifies p.state, owner(p), fin(p), zs(p)
 //@   requires [called_from_callback] owner(p) == me && fin(p) == 0
 //@   ensures [state_restored_or_terminated] result.1 != gen.ErrProcessTerminated && result.1 != gen.ErrNotAllowed ==> owner(p) == me
 //@   ensures [still_owner] owner(p) == me
@@ -442,12 +447,14 @@ package node
 //@ iface gen.Connection.SendResponseError
 //@ func (n *node) RouteSendResponse
 //@   props C07
+//@   modifies anyof(process).messagesIn
 //@   requires [tables] processesWF(n)
 //@   ensures [handed_over_once_with_its_ref] result == nil && to.Node == n.name ==> smHas(n.processes, any(to)) && sentcount(procOf(n, to).response) == old(sentcount(procOf(n, to).response)) + 1 && sent(procOf(n, to).response, response{message, nil, options.Ref})
 //@   ensures [only_the_addressee] forall c chan response :: (result == nil && to.Node == n.name && c == procOf(n, to).response) || sentcount(c) == old(sentcount(c))
 //@   ensures [ignored_is_reported] to.Node == n.name && result != nil ==> (forall c chan response :: sentcount(c) == old(sentcount(c)))
 //@ func (n *node) RouteSendResponseError
 //@   props C07
+//@   modifies anyof(process).messagesIn
 //@   requires [tables] processesWF(n)
 //@   ensures [handed_over_once_with_its_ref] result == nil && to.Node == n.name ==> smHas(n.processes, any(to)) && sentcount(procOf(n, to).response) == old(sentcount(procOf(n, to).response)) + 1 && sent(procOf(n, to).response, response{nil, err, options.Ref})
 //@   ensures [only_the_addressee] forall c chan response :: (result == nil && to.Node == n.name && c == procOf(n, to).response) || sentcount(c) == old(sentcount(c))
@@ -522,6 +529,7 @@ package node
 //@ func (n *node) RouteTerminatePID
 //@   props C04 C03 C14
 //@   mode int
+//@   modifies exitSent, routed, pushed, woken, lastLinks(), lastMonitors(), anyof(process).messagesIn
 //@   may_panic
 //@   requires [tables] processesWF(n) && namesWF(n) && (forall k any :: smHas(n.processes, k) ==> mailboxWF(smVal(n.processes, k).(*process)))
 //@   loop 1 invariant [idx1] -1 <= rangeindex && rangeindex < len(linkConsumers) && linkConsumers == lastLinks() && monitorConsumers == lastMonitors() && nodupPIDs(linkConsumers) && nodupPIDs(monitorConsumers) && remote != nil
@@ -545,6 +553,7 @@ package node
 //@ func (n *node) RouteTerminateEvent
 //@   props C04 C03 C14
 //@   mode int
+//@   modifies exitSent, routed, pushed, woken, lastLinks(), lastMonitors(), anyof(process).messagesIn
 //@   may_panic
 //@   requires [tables] processesWF(n) && namesWF(n) && (forall k any :: smHas(n.processes, k) ==> mailboxWF(smVal(n.processes, k).(*process)))
 //@   loop 1 invariant [idx1] -1 <= rangeindex && rangeindex < len(linkConsumers) && linkConsumers == lastLinks() && monitorConsumers == lastMonitors() && nodupPIDs(linkConsumers) && nodupPIDs(monitorConsumers) && remote != nil
@@ -568,6 +577,7 @@ package node
 //@ func (n *node) RouteTerminateAlias
 //@   props C04 C03 C14
 //@   mode int
+//@   modifies exitSent, routed, pushed, woken, lastLinks(), lastMonitors(), anyof(process).messagesIn
 //@   may_panic
 //@   requires [tables] processesWF(n) && namesWF(n) && (forall k any :: smHas(n.processes, k) ==> mailboxWF(smVal(n.processes, k).(*process)))
 //@   loop 1 invariant [idx1] -1 <= rangeindex && rangeindex < len(linkConsumers) && linkConsumers == lastLinks() && monitorConsumers == lastMonitors() && nodupPIDs(linkConsumers) && nodupPIDs(monitorConsumers) && remote != nil
@@ -591,6 +601,7 @@ package node
 //@ func (n *node) RouteTerminateProcessID
 //@   props C04 C03 C14
 //@   mode int
+//@   modifies exitSent, routed, pushed, woken, lastLinks(), lastMonitors(), anyof(process).messagesIn
 //@   may_panic
 //@   requires [tables] processesWF(n) && namesWF(n) && (forall k any :: smHas(n.processes, k) ==> mailboxWF(smVal(n.processes, k).(*process)))
 //@   loop 1 invariant [idx1] -1 <= rangeindex && rangeindex < len(linkConsumers) && linkConsumers == lastLinks() && monitorConsumers == lastMonitors() && nodupPIDs(linkConsumers) && nodupPIDs(monitorConsumers) && remote != nil
@@ -656,7 +667,7 @@ package node
 //@   props C17
 //@   mode int
 //@   requires [wired] a.node != nil && a.node.log != nil && a.behavior != nil
-//@   modifies a.state, a.reason, a.started, a.parent
+//@   modifies a.state, a.reason, a.started, a.parent, appTermCb(a.behavior), lastTermReason(a.behavior), exitAsked, mapof(a.group.m)
 //@   at range 1 invariant [permanent_exit_seen] forall k gen.PID :: exitAsked(k) == old(exitAsked(k)) + (rseen(1, k) ? 1 : 0)
 //@   at range 2 invariant [transient_exit_seen] forall k gen.PID :: exitAsked(k) == old(exitAsked(k)) + (rseen(2, k) ? 1 : 0)
 //@   at call Terminate assert [callback_after_last_member_with_the_recorded_reason] len(a.group.m) == 0 && a.state == 1 && reason == a.reason && reason != nil
@@ -689,7 +700,7 @@ package node
 //@ func (a *application) start
 //@   props C17
 //@   mode int
-//@   modifies a.state, a.reason, a.mode, a.stopped, a.parent, a.started, spawnSeq(), spawnedPid, appStartCb, smHas(a.node.processes), smVal(a.node.processes), smHas(a.node.names), smVal(a.node.names), killAsked, appStartAsked(a), mapof(a.group.m), a.group
+//@   modifies a.state, a.reason, a.mode, a.stopped, a.parent, a.started, spawnSeq(), spawnedPid, wallclock(), appStartCb, smHas(a.node.processes), smVal(a.node.processes), smHas(a.node.names), smVal(a.node.names), killAsked, appStartAsked(a), mapof(a.group.m), a.group
 //@   ensures_ghost appStartAsked(a) == old(appStartAsked(a)) + 1
 //@   ensures [tables_kept] tablesWF(a.node)
 //@   requires [wired] a.node != nil && a.node.log != nil && a.behavior != nil && tablesWF(a.node)
@@ -750,9 +761,11 @@ package node
 //@ spec func releasedSoFar(n *node, p *process) bool = !smHas(n.processes, any(p.pid)) && (abVal(p.registered) ==> !smHas(n.names, any(p.name))) && (forall j int :: 0 <= j && j < len(p.aliases) ==> !smHas(n.aliases, any(p.aliases[j])))
 //@ spec func unregWF(n *node, p *process) bool = p != nil && p.node == n && n.log != nil && p.log != nil && n.targetManager != nil && tablesWF(n) && applicationsWF(n) && ownEventsWF(p) && ownMetasWF(p)
 
+//@ spec func appOf(n *node, p *process) *application = smVal(n.applications, any(p.application)).(*application)
 //@ func (n *node) unregisterProcess
 //@   props C06 C04 C17
 //@   mode int
+//@   modifies smHas(n.processes), smHas(n.names), smHas(n.aliases), smHas(n.events), exitSent, routed, pushed, woken, mwoken, lastLinks(), lastMonitors(), consumerCleaned(p.pid), anyof(process).messagesIn, anyof(gen.MailboxMessage).From, anyof(gen.MailboxMessage).Type, anyof(gen.MailboxMessage).Message, appOf(n, p).state, appOf(n, p).reason, appOf(n, p).started, appOf(n, p).parent, mapof(appOf(n, p).group.m), appTermCb, lastTermReason, exitAsked
 //@   requires [tables] unregWF(n, p)
 //@   at call RouteTerminatePID assert [pid_announced_gone_with_the_reason] target == p.pid && reason == caller_reason
 //@   at call RouteTerminateProcessID assert [name_announced_gone_with_the_reason] target.Name == p.name && target.Node == n.name && reason == caller_reason
@@ -789,7 +802,8 @@ package node
 //@ func (n *node) ApplicationStart
 //@   props C17
 //@   mode int
-//@   modifies depReady, appStartAsked, spawnSeq(), spawnedPid, appStartCb, smHas(n.processes), smVal(n.processes), smHas(n.names), smVal(n.names), killAsked
+//@   no_frame
+//@   modifies depReady, appStartAsked, spawnSeq(), spawnedPid, wallclock(), appStartCb, smHas(n.processes), smVal(n.processes), smHas(n.names), smVal(n.names), killAsked
 //@   requires [tables] appStartWF(n)
 //@   ensures [tables_kept] appStartWF(n)
 //@   ensures_ghost (result == nil || result == gen.ErrApplicationRunning) ==> depReady(name)
